@@ -180,8 +180,10 @@ type ModShard struct {
 }
 
 func (m *ModShard) FindForKey(key interface{}) (int, error) {
-	h := hack.Abs(NumValue(key))
-	return int(h % int64(m.ShardNum)), nil
+	// |v| % n == |v % n|; unlike hack.Abs(v) the latter is never negative
+	// (hack.Abs(math.MinInt64) is math.MinInt64 itself)
+	h := hack.Abs(NumValue(key) % int64(m.ShardNum))
+	return int(h), nil
 }
 
 type NumRangeShard struct {
